@@ -308,7 +308,10 @@ func (engine *Engine) CommitBlock(header *block.Header, conflicts uint32, isPack
 		}
 		engine.caches.quality.Add(header.ID(), state.Quality)
 
-		if state.Committed && state.Quality > 1 {
+		// Nothing to finalize when the block is still in finalized's own epoch (a fork branching
+		// inside that epoch): the target checkpoint is finalized itself or older, and
+		// findCheckpointByQuality would miss it. Same guard as Resync.
+		if state.Committed && state.Quality > 1 && getCheckPoint(header.Number()) > block.Number(engine.Finalized()) {
 			id, err := engine.findCheckpointByQuality(state.Quality-1, engine.Finalized(), header.ID())
 			if err != nil {
 				return err
